@@ -58,7 +58,7 @@ type checkSpec struct {
 // Budgets live here (driver side) so that tiers can be tuned without touching
 // the scenarios.
 var specs = map[string]*checkSpec{
-	"C03": {Property: "C03", Level: "exploration", DeathIsViolation: true, Runs: map[string]int{"quick": 40000, "thorough": 400000}, Wall: map[string]int{"quick": 50, "thorough": 1500}},
+	"C03": {Property: "C03", Level: "exploration", DeathIsViolation: true, AlsoRace: true, Runs: map[string]int{"quick": 40000, "thorough": 400000}, RaceRuns: map[string]int{"quick": 3000, "thorough": 100000}, Wall: map[string]int{"quick": 70, "thorough": 1800}},
 	"C09": {Property: "C09", Level: "exploration", AlsoRace: true, Runs: map[string]int{"quick": 8000, "thorough": 300000}, RaceRuns: map[string]int{"quick": 3000, "thorough": 100000}, Wall: map[string]int{"quick": 70, "thorough": 1800}},
 	"C14": {Property: "C14", Level: "exploration", Runs: map[string]int{"quick": 40000, "thorough": 400000}, Wall: map[string]int{"quick": 50, "thorough": 1500}},
 	"C12": {Property: "C12", Level: "fault_enumeration", Runs: map[string]int{"quick": 0, "thorough": 0}, Wall: map[string]int{"quick": 50, "thorough": 1500}, TotalFromWorker: true},
